@@ -36,7 +36,7 @@ APOSTROPHE_LOOK_ALIKE_CHARS = [
 RE_NBSP = re.compile("\xa0", flags=re.UNICODE)
 RE_SPACES = re.compile(r"\s+")
 RE_TRIM_SPACES = re.compile(r"^\s*(\S.*?)\s*$")
-RE_TRIM_COLONS = re.compile(r"(\S.*?):*$")
+RE_TRIM_COLONS = re.compile(r"(\S.*?)[:\s]*$")
 
 RE_SANITIZE_SKIP = re.compile(
     r"\t|\n|\r|\u00bb|,\s+\u0432\b|\u200e|\xb7|\u200f|\u064e|\u064f", flags=re.M
